@@ -32,6 +32,10 @@ def extras(base):
     elif base == "I2":
         m += [["set", "line", 2, "parallel", 2], ["gen", 3, 0.5, 1.01, "wide", False, True],
               ["set", "line", 0, "c_nf_per_km", 0.], ["switch", 1, 3, "b", True, 0.]]
+    # a double circuit WITH dielectric conductance (g_us_per_km is 0 in every default): every place that scales line
+    # shunt parameters with `parallel` / sn_mva must treat g like c
+    pl = {"R3": 1, "M4": 2, "T3": 0, "W3": 0, "I2": 0}[base]
+    m += [["multi", [["set", "line", pl, "parallel", 2], ["set", "line", pl, "g_us_per_km", 10.]]]]
     return m
 
 
